@@ -102,6 +102,17 @@ CHECKS = [
              'Full-rank runs to convergence: eigen-residual, E in spectrum; projected runs orthogonal, E >= next level and in spectrum.',
      'note': 'trusted: dense H from vlib/jw.py, numpy eigvalsh; eigenstate clauses only for runs reporting convergence and gaps >= 1e-3; reaching exactly '
              'the next level under projection is labelled, not required (1-site sweeps may stall on a higher eigenstate)'},
+    {'id': 'C10',
+     'technique': 'Hypothesis-generated Hamiltonians, initial states, time grids and option combinations; TDVP snapshots compared with scipy.linalg.expm of a dense Jordan-Wigner Hamiltonian, conservation laws on small-D states, convergence-order probe against a 4th-order Magnus reference',
+     'text': 'Saturated states (mps_from_tensor of random sector vectors, any gauge / factor) for every family x symmetry, N=2..6, every admissible '
+             'charge, 1site/2site/12site, 2nd/4th order, real/imaginary/complex u, single MPO or sum, precompute, normalize, subtract_E, yield_initial, '
+             'grids with dt not dividing the interval: TDVP_out bookkeeping (ti, tf, dt, minimal steps), sector, canonical form, and the dense state '
+             'equals expm(-u t H) psi0 to 1e-9 whenever every bond has a complete Schmidt basis on one side (the case in which the splitting '
+             'integrator is exact); otherwise the deviation must shrink at the stated order. Small-D real-time runs conserve norm and energy to 1e-8. '
+             'Time-dependent H(t): error against a fine Magnus reference shrinks by >= 2^(p-1/2) per halving of dt.',
+     'note': 'trusted: dense H from vlib/jw.py, scipy expm; the exactness clause is restricted by a computed completeness predicate because the '
+             'projector-splitting integrator has an O(dt^p) splitting error on symmetric sectors whose bonds are left-complete in one charge block and '
+             'right-complete in another; order clause is asymptotic and probed at 2-3 step sizes inside an error window'},
     {'id': 'C13',
      'technique': 'Hypothesis-generated spectra and limit combinations checked with a validity predicate derived from the documented two-stage rule; error identity on generated factorisations',
      'text': 'Diagonal spectra with ties, zeros, one-element sectors over 1-5 sectors and every combination of D_total, D_block (scalar/dict), '
@@ -133,6 +144,16 @@ CHECKS = [
              'version; every call of a memoised function is compared with a fresh recomputation and with the digest recorded at first '
              'insertion; a second interleaving gives identical per-program results.',
      'note': 'trusted: to_dict(level=2) as the bit-level observer; Python == / hash semantics of lru_cache keys (0.0 == -0.0 == 0); cache statistics are not asserted'},
+    {'id': 'C17',
+     'technique': 'Hypothesis-generated tensor programs / MPS / PEPS objects sent through generated serialisation routes (round-trip oracle against the original object and the independent dense model; linearity/norm and rejection oracles for meta)',
+     'text': 'Every pool tensor of generated programs (diag, hard/meta fused, lazily transposed, empty, complex, rank 0, blocked) goes through '
+             'to_dict level 0/1/2 (resolve_ops, split/combine, numpy.save/load, dict_ver 1 form, Tensor.from_dict / yastn.from_dict with and without '
+             'config), HDF5 and the legacy save_to_dict/load_from_dict; the restored tensor equals the original in legs incl. histories, n, s, dtype, '
+             'config knobs, values (bitwise), follow-up transpose/unfuse/contraction, and agrees with the NumPy model; the original is unchanged. '
+             'to_dict(meta=) vectors: length, norm, linearity, round trip, 8 rejection classes. MPS/MPO (central block, factor) and Peps / '
+             'Peps2Layers / DoublePepsTensor / Lattice / EnvCTM / EnvBP / EnvBoundaryMPS / EnvCTM_c4v on 14 geometries of every lattice type.',
+     'note': 'trusted: vlib/model.py and public observers; HDF5 through an in-memory h5py file (core driver); numpy.save only for level >= 1 '
+             '(level 0 keeps the config module by design); torch backend not available'},
     {'id': 'C19',
      'technique': 'exhaustive enumeration of the group law against an independent table + Hypothesis search over Leg arguments',
      'text': 'Every fuse()/add_charges() row in the stated charge box (complete for Z2/Z3 factors, |t|<=B for U(1)) for '
